@@ -199,7 +199,14 @@ def run(ck: Check):
     specs = [c28.two_einsum_yaml(rng) for _ in range(n2 - 1)]
     # heterogeneous chains (different rank bounds per Einsum, small GLB): the "never overflows" judgements differ per Einsum
     specs += [c06.chain_spec(rng, 2, glb_choices=(96, 128, 256), bound_choices=(2, 4, 8))[:2]]
-    specs += [c06.chain_spec(rng, 3, glb_choices=(128, 192, 256), bound_choices=(2, 2, 4, 8))[:2] for _ in range(n3)]
+    specs += [c06.chain_spec(rng, 3, glb_choices=(128, 192, 256), bound_choices=(2, 2, 4, 8))[:2] for _ in range(n3 - 1)]
+    # a chain whose Einsums differ widely in size (big first, tiny last, or the reverse): a "this memory can never
+    # overflow" judgement that is right for one Einsum is wrong for the workload
+    sizes = rng.choice([[8, 8, 2, 2], [2, 2, 8, 8]] if thorough else [[8, 8, 2, 2]])
+    specs += [c06.chain_spec(rng, 3, glb_choices=(256,), ns=sizes, m=4)[:2]]
+    if thorough:
+        specs += [c06.chain_spec(rng, 3, glb_choices=(160, 192, 256), ns=[2, 2, 8, 8], m=4)[:2],
+                  c06.chain_spec(rng, 2, glb_choices=(512, 768), ns=[8, 8, 2], m=4)[:2]]
     if thorough:
         specs += [three_einsum_yaml(rng) for _ in range(2)]
     msets = [("ENERGY",), ("ENERGY", "LATENCY"), ("ENERGY_DELAY_PRODUCT",), ("ENERGY", "LATENCY", "RESOURCE_USAGE")]
